@@ -1,6 +1,6 @@
 """C13 -- truth, budget and evidence numbers accept exactly the closed unit interval."""
 import re, os
-import hir, deps, maps
+import hir, deps, maps, psel
 from hir import strip, field_path, Unrecognised
 from facts import AnchorMissing
 
@@ -8,6 +8,10 @@ LEVEL = "other"
 TYPES = {"Truth": ("enum_narsese::sentence::truth::Truth", "enum_narsese::sentence::truth"),
          "Budget": ("enum_narsese::task::budget::Budget", "enum_narsese::task::budget")}
 NAMES = ["new_empty", "new_single", "new_double", "new_triple"]
+
+
+def _panics(e):
+    return any("panic" in (hir.callee(c) or "") or (hir.callee(c) or "").startswith("std::rt::") for c in hir.find_calls(e))
 
 
 def validated_param(e, method):
@@ -246,21 +250,27 @@ def run(ctx):
             if len(its) != 1:
                 raise AnchorMissing("%s::%s" % (tname, nm))
             ctx.fn(its[0])
-            m = hir.top_match(its[0])
-            ret, panics = set(), False
-            good = True
-            for v, arm, pat in hir.arms_by_variant(m):
-                if v == "_":
-                    b = hir.last_expr(arm["body"])
-                    panics = any((hir.callee(c) or "").startswith("std::rt::") or "panic" in (hir.callee(c) or "") for c in hir.find_calls(arm["body"]))
+            # per variant: which leaf of the body is selected (psel: `match`, `if let`, `let else`, explicit variants or `_` alike)
+            ret, pan, good = set(), set(), True
+            for v in arity:
+                binds = {}
+                try:
+                    leaf = strip(psel.select(its[0]["body"], {"self"}, v, binds=binds))
+                except Unrecognised as u:
+                    ctx.unrecognised("K-ACCESSOR", "%s::%s %s" % (tname, nm, v), u.what)
+                    good = False
                     continue
-                binds = hir.pat_bindings(pat)
-                b = strip(arm["body"])
-                okb = b["k"] == "Unary" and b["op"] == "*" and len(binds) > k and field_path(b["e"]) == (binds[k],)
-                good = good and okb
-                ret.add(v)
+                if leaf["k"] == "Block" and not [s_ for s_ in leaf.get("stmts", []) if s_["k"] != "Item"] and leaf.get("expr") is not None:
+                    leaf = strip(leaf["expr"])
+                if leaf["k"] == "Unary" and leaf["op"] == "*" and field_path(leaf["e"]) and len(field_path(leaf["e"])) == 1 and binds.get(field_path(leaf["e"])[0]) == k:
+                    ret.add(v)
+                elif _panics(leaf):
+                    pan.add(v)
+                else:
+                    good = False
             want = {v for v, n in arity.items() if n > k}
-            ctx.ob("K-ACCESSOR", "%s::%s" % (tname, nm), good and ret == want and panics, "returns field %d for %s (expected %s), panics otherwise: %s" % (k, sorted(ret), sorted(want), panics))
+            ctx.ob("K-ACCESSOR", "%s::%s" % (tname, nm), good and ret == want and pan == set(arity) - want,
+                   "returns field %d for %s (expected %s), panics for %s" % (k, sorted(ret), sorted(want), sorted(pan)))
         for a, target in alias[tname]:
             its = [it for p, it in f.hir.items() if it["name"] == a and (it.get("impl") or {}).get("self_ty") == adtp and not (it.get("impl") or {}).get("trait")]
             if len(its) != 1:
@@ -280,22 +290,32 @@ def run(ctx):
         if len(its) != 1:
             raise AnchorMissing("Truth::%s" % nm)
         ctx.fn(its[0])
-        m = hir.top_match(its[0])
         pn = [q["name"] for q in its[0]["params"] if q["k"] == "Binding" and q["name"] != "self"]
-        wr, panics, good = set(), False, True
+        wr, pan, good = set(), set(), True
         arity = {v["name"]: len(v["fields"]) for v in f.adts[TYPES["Truth"][0]]["variants"]}
-        for v, arm, pat in hir.arms_by_variant(m):
-            if v == "_":
-                panics = any("panic" in (hir.callee(c) or "") or (hir.callee(c) or "").startswith("std::rt::") for c in hir.find_calls(arm["body"]))
+        for v in arity:
+            binds = {}
+            try:
+                leaf = strip(psel.select(its[0]["body"], {"self"}, v, binds=binds))
+            except Unrecognised as u:
+                ctx.unrecognised("K-ACCESSOR", "Truth::%s %s" % (nm, v), u.what)
+                good = False
                 continue
-            binds = hir.pat_bindings(pat)
-            b = strip(arm["body"])
-            okb = b["k"] == "Assign" and strip(b["l"])["k"] == "Unary" and len(binds) > k and field_path(strip(b["l"])["e"]) == (binds[k],) \
-                and strip(b["r"])["k"] == "Unary" and field_path(strip(b["r"])["e"]) == (pn[0],)
-            good = good and okb
-            wr.add(v)
+            asg = [n_ for n_ in hir.walk(leaf) if n_.get("k") == "Assign"]
+            if len(asg) == 1 and not _panics(leaf):
+                b = asg[0]
+                l_, r_ = strip(b["l"]), strip(b["r"])
+                okb = l_["k"] == "Unary" and field_path(l_["e"]) and len(field_path(l_["e"])) == 1 and binds.get(field_path(l_["e"])[0]) == k \
+                    and r_["k"] == "Unary" and field_path(r_["e"]) == (pn[0],)
+                good = good and okb
+                wr.add(v)
+            elif _panics(leaf) and not asg:
+                pan.add(v)
+            else:
+                good = False
         want = {v for v, n in arity.items() if n > k}
-        ctx.ob("K-ACCESSOR", "Truth::%s writes field %d of exactly %s" % (nm, k, sorted(want)), good and wr == want and panics, "writes for %s; panics otherwise: %s" % (sorted(wr), panics))
+        ctx.ob("K-ACCESSOR", "Truth::%s writes field %d of exactly %s" % (nm, k, sorted(want)), good and wr == want and pan == set(arity) - want,
+               "writes for %s; panics for %s" % (sorted(wr), sorted(pan)))
     # ---- V-ROOT: shape of the n-th root (the numeric law itself stays undecided)
     ctx.rule("V-ROOT", "structural necessary condition of `root(n) of a valid number is valid`: the blanket impl computes "
              "Self::from(self.into().powf(1.0 / (n as FloatPrecision))) -- the exponent is the reciprocal of n converted DIRECTLY to the float type "
